@@ -230,6 +230,21 @@ fn render_line(
                 docs.append(&mut body);
             } else {
                 let mut raw = tok.text().to_string();
+                // `-----x`: the text continues the run of dashes. A blank put after the first three
+                // would turn the rest into a nested `--x` comment (and the line changes again on the
+                // next pass), so such a line keeps its dashes together.
+                let body_continues_dashes = !raw.ends_with(' ')
+                    && gap.as_deref().is_none_or(str::is_empty)
+                    && body.first().is_some_and(|doc| match doc {
+                        DocIR::SourceToken(token) => token.text().starts_with('-'),
+                        DocIR::Text(text) => text.starts_with('-'),
+                        _ => false,
+                    });
+                if body_continues_dashes {
+                    docs.push(ir::text(&raw));
+                    docs.append(&mut body);
+                    return docs;
+                }
                 if ctx.config.emmy_doc.space_after_description_dash {
                     // Ensure space after dashes even when body has no leading ws.
                     if !raw.ends_with(' ') {
